@@ -589,6 +589,11 @@ theorem step_onePlace {w : World} (hn : 0 < w.nst) (hinv : CacheInv w) (hone : O
   cases c with
   | rmCache u s f => exact ⟨hone, hin⟩
   | clearCache u => exact ⟨hone, hin⟩
+  | envRmDir d => exact ⟨hone, hin⟩
+  | adminBuild u self =>
+    unfold step
+    rw [(step_adminBuild_db true w u self).1]
+    exact ⟨hone, hin⟩
   | run u c crash =>
     cases c with
     | assignTag f t n v st => exact absurd hc (by simp [Plain])
